@@ -91,7 +91,10 @@ func (fc *FnCtx) queryTextMode(q *Query, light bool) string {
 	body.WriteString("(assert (not " + q.Goal + "))\n")
 	bs := body.String()
 	var out strings.Builder
-	if light {
+	seq := fc.contract != nil && fc.contract.Opts["encoding"] == "seq"
+	if seq {
+		out.WriteString(preambleSeq)
+	} else if light {
 		out.WriteString(preambleLight())
 	} else {
 		out.WriteString(preambleArray)
@@ -100,7 +103,8 @@ func (fc *FnCtx) queryTextMode(q *Query, light bool) string {
 	if light {
 		spec = dropWfAxioms(spec)
 	}
-	if strings.Contains(bs+spec, "(itoa ") {
+	out.WriteString(litDefs(bs+spec, seq))
+	if !seq && strings.Contains(bs+spec, "(itoa ") {
 		out.WriteString(itoaDecl)
 	}
 	if strings.Contains(bs+spec, "(hexs ") {
@@ -139,7 +143,9 @@ func (fc *FnCtx) solveObligation(ob *Obligation, timeout time.Duration) {
 			to = 3 * time.Second
 		}
 		var r SolverResult
-		if ob.MustFail {
+		if fc.contract != nil && fc.contract.Opts["encoding"] == "seq" {
+			r = solve(text, seqSolvers, to)
+		} else if ob.MustFail {
 			r = solve(text, arraySolvers, to)
 		} else {
 			r = solve2(text, fc.queryTextMode(q, true), arraySolvers, to)
